@@ -160,6 +160,16 @@ impl<'a> Stats<'a> {
                     );
                     return;
                 }
+                // the derived iterators must be projections of the same sequence
+                if self.rep.count("c06/range_compared") % 7 == 0 {
+                    let ks: Vec<Vec<u8>> = store.range_keys(s.as_deref(), e.as_deref(), order).collect();
+                    let vs: Vec<Vec<u8>> = store.range_values(s.as_deref(), e.as_deref(), order).collect();
+                    self.rep.bump("c06/range_keys_values_compared");
+                    if ks != want.iter().map(|x| x.0.clone()).collect::<Vec<_>>() || vs != want.iter().map(|x| x.1.clone()).collect::<Vec<_>>() {
+                        self.fail("overlay-range-keys-or-values-differ-from-ordered-map", format!("{}: range_keys/range_values({:?},{:?},{:?}) differ from the model", what, s.as_ref().map(|x| hex(x)), e.as_ref().map(|x| hex(x)), order));
+                        return;
+                    }
+                }
                 let sh = shape(delta, base, s.as_deref(), e.as_deref(), order);
                 if sh.len() > 2 {
                     self.rep.fingerprints.insert(fp_str(&sh));
